@@ -5,5 +5,6 @@ Require Import ExtrOcamlBasic.
 From SV Require Import Checkers.Driver.
 Cd "../ocaml".
 Extraction "model.ml" model_transcript verdict zlists_eqb derive_line dispatch_model dispatch_verdict
-  conc_transcript conc_verdict conc_enum saveload_transcript.
+  conc_transcript conc_verdict conc_enum saveload_transcript
+  unwind_transcript unwind_verdict.
 Cd "../coq".
